@@ -27,6 +27,56 @@ ASSUMPTIONS = [
 ]
 
 
+MUTANTS = [
+    ("origin 1", "AegeanTools/source_finder.py",
+     "ra, dec = wcs.wcs.wcs_pix2world(yx, 0).transpose()",
+     "ra, dec = wcs.wcs.wcs_pix2world(yx, 1).transpose()", "C11-R1"),
+    ("crossed offsets", "AegeanTools/source_finder.py",
+     "                yx = list(zip(y + ymin, x + xmin))\n                ra, "
+     "dec = wcs.wcs",
+     "                yx = list(zip(y + xmin, x + ymin))\n                ra, "
+     "dec = wcs.wcs", "C11-R1"),
+    ("row first", "AegeanTools/source_finder.py",
+     "                yx = list(zip(y + ymin, x + xmin))\n                ra, "
+     "dec = wcs.wcs",
+     "                yx = list(zip(x + xmin, y + ymin))\n                ra, "
+     "dec = wcs.wcs", "C11-R1"),
+    ("offsets dropped", "AegeanTools/source_finder.py",
+     "                yx = list(zip(y + ymin, x + xmin))\n                ra, "
+     "dec = wcs.wcs",
+     "                yx = list(zip(y, x))\n                ra, "
+     "dec = wcs.wcs", "C11-R1"),
+    ("box pixels tested", "AegeanTools/source_finder.py",
+     "                x, y = np.where(own)\n",
+     "                x, y = np.where(snr[xmin:xmax, ymin:ymax] >= "
+     "flood_clip)\n", "C11-R2"),
+    ("region shapes the island", "AegeanTools/source_finder.py",
+     "                if not np.any(mask):\n                    continue\n\n"
+     "            # copy so that we don't blank the master data",
+     "                if not np.any(mask):\n                    continue\n"
+     "                own[x[~mask], y[~mask]] = False\n\n"
+     "            # copy so that we don't blank the master data", "C11-R3"),
+    ("all pixels must be inside", "AegeanTools/source_finder.py",
+     "                if not np.any(mask):\n                    continue\n\n"
+     "            # copy",
+     "                if not np.all(mask):\n                    continue\n\n"
+     "            # copy", "C11-R3"),
+    ("region not forwarded", "AegeanTools/source_finder.py",
+     "            region=global_data.region,\n            wcs=global_data."
+     "psfhelper,", "            wcs=global_data.psfhelper,", "C11-R4"),
+]
+TWINS = [
+    ("degin via keyword order", "AegeanTools/source_finder.py",
+     "                mask = region.sky_within(ra, dec, degin=True)\n"
+     "                if not np.any(mask):\n                    continue\n\n"
+     "            # copy",
+     "                mask = region.sky_within(ra=ra, dec=dec, degin=True)\n"
+     "                if not np.any(mask):\n                    continue\n\n"
+     "            # copy"),
+]
+
+
+
 def run(ctx):
     prog = ctx.prog
     m = IslandModel(prog)
@@ -115,6 +165,16 @@ def run(ctx):
                           is_none_guard,
                           "a region-dependent condition does more than skip "
                           "the island", node=s)
+                if only_skip and not is_none_guard:
+                    t = norm(s.test).replace(" ", "")
+                    okany = any(t == "notnp.any(%s)" % d for d in down) or \
+                        any(t == "not%s.any()" % d for d in down)
+                    ctx.check("C11-R3", fi, "skip iff no pixel inside: " +
+                              norm(s.test), okany,
+                              "an island is kept when AT LEAST ONE of its "
+                              "pixels is inside the region; the skip "
+                              "condition must be `not np.any(inside)`",
+                              node=s)
             continue
         loads = {x.id for x in ast.walk(s) if isinstance(x, ast.Name) and
                  isinstance(x.ctx, ast.Load)}
@@ -169,7 +229,8 @@ def run(ctx):
 def _sources(loop, call):
     """np.where(...) arguments that the arguments of `call` depend on"""
     names = set()
-    for a in call.args:
+    for a in list(call.args) + [k.value for k in call.keywords
+                                if k.arg in ("ra", "dec")]:
         names |= names_in(a)
     seen = set()
     out = []
